@@ -46,6 +46,10 @@ def lib(variant="plain"):
         L.vp_engine_query.restype = c_void_p; L.vp_engine_query.argtypes = [c_void_p]
         L.vp_engine_source.restype = c_char_p; L.vp_engine_source.argtypes = [c_void_p]
         L.vp_engine_free.argtypes = [c_void_p]; L.vp_engine_free.restype = None
+        L.vp_engine_parse.restype = None; L.vp_engine_parse.argtypes = [c_void_p]
+        L.vp_engine_new_d.restype = c_void_p; L.vp_engine_new_d.argtypes = [c_char_p, c_ulong]
+        L.vp_engine_set_text.restype = None; L.vp_engine_set_text.argtypes = [c_void_p, c_char_p]
+        L.vp_engine_state.restype = ctypes.c_uint64; L.vp_engine_state.argtypes = [c_void_p]
         L.vp_global_state.restype = ctypes.c_uint64
         _lib = L
     return _lib
